@@ -1,6 +1,6 @@
 """C12 -- every compiled grammar is well-formed GBNF.
 
-Per generated schema (FIELDS route and META.CONTRACT route, with/without envelope):
+Per generated schema (FIELDS route, META.CONTRACT route, hand-built SchemaDefinition; with/without envelope):
   1. correspondence: implementation grammar text == text emitted by the extracted Coq compiler model
      (Gbnf/Compiler.v) fed with the implementation's own SchemaDefinition;
   2. property search on the IMPLEMENTATION: every grammar returned by CompileGrammarTool.execute,
@@ -37,7 +37,13 @@ SAN_NAMES = [
     "WS", "Ws", "FIELD", "CONTENT", "DOCUMENT", "ROOT",    # structural rule names
     "ENVELOPE-START", "ENVELOPE-END", "META-BLOCK", "META-CONTENT", "META-FIELD", "envelope-end",
 ]
-CONTRACT_ONLY_NAMES = ["9a", "1", "9A", '"q r"', '"x"']        # leading digits / quoted names: CONTRACT route only
+# leading digits / quoted names (CONTRACT route only: FIELD["q r"] keeps its quotes in the field name). The quoted ones put
+# double quotes, backslashes, spaces, a tab and a line break INSIDE the GBNF literal of the field rule (escaped since 481c8b3)
+CONTRACT_ONLY_NAMES = ["9a", "1", "9A", '"q r"', '"x"', '"a\\\\b"', '"q\\"r"', '" lead"', '"a b\\\\"', '"x\\ty"', '"x\\ny"',
+                       '"a\\"b\\\\c d"']
+# direct API route (SchemaDefinition built by hand): arbitrary text as field name / schema name
+API_FIELD_NAMES = ["q r", 'a"b', "a\\b", '"q r"', "x\ny", " ", "tab\there", 'a"b\\c', "\\", '"', 'say "hi" \\o/', "NAME", "K"]
+API_SCHEMA_NAMES = ['a"b\\c', "My Schema", "a\\", '"', "S", 'x "y" \\z', "été\"", "a\nb"]
 REGEX_POOL = [
     "abc", "^abc$", "^[a-z]+$", "[a-z]+", "[A-Z]", "[a-z]*", "[0-9a-f]+", "^[A-Z][a-z]+$", "[a-z]+[0-9]*",
     "a\\\\.b", "\\\\d+", "\\\\w+\\\\s*", "\\\\bword\\\\b", "(a|b)+", "(?:x|y)", "(?=z)q", "a|b", "ws|field",
@@ -50,12 +56,16 @@ ENUM_POOL = [["A", "B"], ["ACTIVE", "PAUSED", "COMPLETE"], ["a b", "c"], ['x"y',
 CONST_POOL = ["X", "42", "-7", "1.5", "true", "null", '"a b"', '"q\\"r"', "v1.2.3", "DONE", '"back\\\\slash"']
 TYPE_POOL = ["STRING", "NUMBER", "BOOLEAN", "LIST", "LITERAL", "OTHER"]
 SCHEMA_NAMES = ["S", "MY_SCHEMA", "Doc1", "SESSION_LOG"]
-CONTRACT_TYPES = ["SESSION_LOG", "T", '"My Type"', '"a\\"b"', "lower_case", '"été"']
+CONTRACT_TYPES = ["SESSION_LOG", "T", '"My Type"', '"a\\"b"', "lower_case", '"été"', '"a\\"b\\\\c"', '"back\\\\slash"',
+                  '"a\\nb"']
 
+# clause bit -> listed finding.  Bit 3 (field name) has NO finding since repo 481c8b3 (names are escaped; what is left
+# of the clause is a NUL in the name, which no reader produces).  Bit 4 (schema name) is attributed only when the name
+# really contains a line break (header comment); quote / backslash in the name are no excuse any more.
 FINDING_OF_BIT = {0: "C12-underscore-rule-name", 1: "C12-sanitise-collision", 2: "C12-structural-name",
-                  3: "C12-quoted-field-name", 4: "C12-schema-name-unescaped", 5: "C12-regex-passthrough"}
+                  4: "C12-schema-name-line-break", 5: "C12-regex-passthrough"}
 # failure kind (wf code in the `_`-tolerant dialect) -> clause bits that can explain it
-EXPLAINS = {1: (3, 4, 5), 3: (5, 3), 4: (1, 2), 5: (5,), 2: ()}
+EXPLAINS = {1: (4, 5), 3: (5,), 4: (1, 2), 5: (5,), 2: ()}
 CODE_NAME = {0: "ok", 1: "does-not-parse", 2: "root-missing", 3: "undefined-reference", 4: "duplicate-rule",
              5: "empty-alternative"}
 
@@ -464,10 +474,12 @@ class Surfaces:
         return out
 
 
-def classify(ctx, case, text, strict, lenient, clauses, model_text_equal):
+def classify(ctx, case, text, strict, lenient, clauses, model_text_equal, sname=None):
     """Report a not-well-formed grammar. strict/lenient: wf codes; clauses: bit mask or None."""
     what = f"grammar is not well-formed GBNF: {CODE_NAME[strict]}"
-    bits = [b for b in range(7) if clauses is not None and (clauses >> b) & 1]
+    bits = [b for b in range(7) if clauses is not None and (clauses >> b) & 1 and b in FINDING_OF_BIT]
+    if 4 in bits and not (isinstance(sname, str) and ("\n" in sname or "\r" in sname)):
+        bits.remove(4)
     reported = False
     if model_text_equal and clauses is not None:
         if strict == 1 and 0 in bits:
@@ -532,7 +544,8 @@ def check_texts(ctx, have_model, records):
                 ctx.correspondence_failure({"case": r["case"], "text": t, "code": strict},
                                            "safe_schema holds but the grammar is not well-formed (contradicts compile_wf)")
         if strict != 0:
-            classify(ctx, {"surface": r["surface"], "input": r["case"], "grammar": t}, t, strict, lenient, cl, bool(same))
+            classify(ctx, {"surface": r["surface"], "input": r["case"], "grammar": t}, t, strict, lenient, cl, bool(same),
+                     r.get("sname"))
     return len(texts)
 
 
@@ -548,18 +561,21 @@ def run(ctx):
         "schemas: 1-5 fields, names drawn from a %d-name sanitisation pool (case/dot/slash/hyphen/underscore collisions, "
         "unicode, leading digits, structural rule names) mixed with %d clean names; chains of 0-3 members over all constraint "
         "kinds with REGEX patterns from a %d-pattern pool (literals, escapes, groups, alternation, braces, classes, anchors, "
-        "malformed); FIELDS route and META.CONTRACT route; with and without envelope; plus every pool name alone and every "
-        "pool pattern alone. Every grammar text returned by each surface is checked. distinct/non-trivial = distinct grammar "
-        "text with at least one field rule" % (len(SAN_NAMES) + len(CONTRACT_ONLY_NAMES), len(CLEAN_NAMES), len(REGEX_POOL)))
+        "malformed); FIELDS route, META.CONTRACT route (quoted FIELD names and quoted TYPE: double quotes, backslashes, blanks, "
+        "tab, line break inside the name) and hand-built SchemaDefinition (API route: arbitrary text as field / schema name, "
+        "%d + %d pool names plus random strings over letters, blank, quote, backslash, tab); with and without envelope; plus "
+        "every pool name alone and every pool pattern alone. Every grammar text returned by each surface is checked. "
+        "distinct/non-trivial = distinct grammar text with at least one field rule"
+        % (len(SAN_NAMES) + len(CONTRACT_ONLY_NAMES), len(CLEAN_NAMES), len(REGEX_POOL), len(API_FIELD_NAMES), len(API_SCHEMA_NAMES)))
 
-    def add(surface, text, case, schema_enc, env):
+    def add(surface, text, case, schema_enc, env, sname=None):
         if text is None:
             ctx.hist("no_grammar_returned", surface)
             return
         if not isinstance(text, str):
             ctx.property_failure({"surface": surface, "input": case}, f"grammar is not a string: {type(text).__name__}")
             return
-        records.append({"text": text, "surface": surface, "case": case, "schema_enc": schema_enc, "env": env})
+        records.append({"text": text, "surface": surface, "case": case, "schema_enc": schema_enc, "env": env, "sname": sname})
         if '"::" ws' in text:
             ctx.nontrivial(text)
 
@@ -576,14 +592,15 @@ def run(ctx):
         ctx.hist("fields_in_schema", len(schema.fields))
         for env in (True, False):
             try:
-                add(f"GBNFCompiler.compile_schema(env={env})", GBNFCompiler().compile_schema(schema, include_envelope=env), case, enc, env)
+                add(f"GBNFCompiler.compile_schema(env={env})", GBNFCompiler().compile_schema(schema, include_envelope=env), case, enc, env,
+                    schema.name)
             except Exception as e:
                 ctx.hist("compile_raised", type(e).__name__)
-        add("octave_compile_grammar(content)", surf.compile_tool(doc), case, enc, True)
-        add("octave_eject(format=gbnf)", surf.eject(doc), case, enc, True)
+        add("octave_compile_grammar(content)", surf.compile_tool(doc), case, enc, True, schema.name)
+        add("octave_eject(format=gbnf)", surf.eject(doc), case, enc, True, schema.name)
         if full:
-            for sname, g in surf.hints(doc, name).items():
-                add(sname, g, case, enc, True)
+            for hname, g in surf.hints(doc, name).items():
+                add(hname, g, case, enc, True, schema.name)
 
     def do_contract(tname, fields):
         doc = contract_doc(tname, fields)
@@ -618,18 +635,59 @@ def run(ctx):
                     want = "OK " + enc_str(m.group(1).strip()) + " " + (enc_str(cs) if cs else "~")
                 if r != want:
                     ctx.correspondence_failure({"spec": s, "impl": want, "model": r}, "CONTRACT field spec split differs from the model")
+        sn = schema.name if schema is not None else None
         try:
-            add("compile_gbnf_from_meta", compile_gbnf_from_meta(d.meta), case, enc, True)
+            add("compile_gbnf_from_meta", compile_gbnf_from_meta(d.meta), case, enc, True, sn)
         except Exception as e:
             ctx.hist("compile_raised", type(e).__name__)
+        if schema is not None:
+            # the same SchemaDefinition straight through compile_schema, with and without envelope
+            for env in (True, False):
+                try:
+                    add(f"GBNFCompiler.compile_schema(env={env})", GBNFCompiler().compile_schema(schema, include_envelope=env),
+                        case, enc, env, sn)
+                except Exception as e:
+                    ctx.hist("compile_raised", type(e).__name__)
         try:
-            add("octave_compile_grammar(content)", surf.compile_tool(doc), case, enc, True)
+            add("octave_compile_grammar(content)", surf.compile_tool(doc), case, enc, True, sn)
         except Exception as e:
             ctx.hist("tool_raised", type(e).__name__)
         try:
-            add("octave_eject(format=gbnf)", surf.eject(doc), case, enc, True)
+            add("octave_eject(format=gbnf)", surf.eject(doc), case, enc, True, sn)
         except Exception as e:
             ctx.hist("tool_raised", type(e).__name__)
+
+    def do_api(sname, fields):
+        """SchemaDefinition built by hand (any text as schema name / field name) -> compile_schema, both envelope modes."""
+        from octave_mcp.core.constraints import ConstraintChain
+        from octave_mcp.core.holographic import HolographicPattern
+        from octave_mcp.core.schema_extractor import FieldDefinition, SchemaDefinition
+        case = {"route": "API", "schema_name": sname, "fields": [[fn, list(ch)] for fn, ch in fields]}
+        schema = SchemaDefinition(name=sname, version="1.0")
+        for fn, ch in fields:
+            try:
+                cons = ConstraintChain.parse("∧".join(ch)) if ch else None
+            except ValueError:
+                ctx.hist("reader_refused", "ConstraintChain.parse")
+                continue
+            schema.fields[fn] = FieldDefinition(name=fn, pattern=HolographicPattern(example=None, constraints=cons, target=None),
+                                                raw_value="∧".join(ch))
+        enc = enc_schema(schema)
+        ctx.hist("fields_in_schema", len(schema.fields))
+        for env in (True, False):
+            try:
+                add(f"GBNFCompiler.compile_schema(env={env})", GBNFCompiler().compile_schema(schema, include_envelope=env), case, enc, env,
+                    sname)
+            except Exception as e:
+                ctx.hist("compile_raised", type(e).__name__)
+
+    MUST_SURFACES = {
+        "CONTRACT": {"compile_gbnf_from_meta", "GBNFCompiler.compile_schema(env=True)", "GBNFCompiler.compile_schema(env=False)",
+                     "octave_compile_grammar(content)", "octave_eject(format=gbnf)"},
+        "FIELDS": {"GBNFCompiler.compile_schema(env=True)", "GBNFCompiler.compile_schema(env=False)",
+                   "octave_compile_grammar(content)", "octave_eject(format=gbnf)"},
+        "API": {"GBNFCompiler.compile_schema(env=True)", "GBNFCompiler.compile_schema(env=False)"},
+    }
 
     try:
         # ---- corpus: finding witnesses and minimised past failures first ----
@@ -643,14 +701,35 @@ def run(ctx):
                 do_contract(w.get("type", "T"), [tuple(x) for x in w["fields"]])
             seen_wit[fid] = (n0, len(records))
         cdir = os.path.join(os.path.dirname(__file__), "..", "..", "corpus", "C12")
+        must = []          # (file, witness, first record, one past the last record): "expect": "wf" regressions
         if os.path.isdir(cdir):
             for fn in sorted(os.listdir(cdir)):
                 if fn.endswith(".json"):
                     w = json.load(open(os.path.join(cdir, fn)))
+                    n0 = len(records)
                     if w.get("route") == "FIELDS":
                         do_fields(w.get("schema_name", "S"), [tuple(x) for x in w["fields"]], False)
                     elif w.get("route") == "CONTRACT":
                         do_contract(w.get("type", "T"), [tuple(x) for x in w["fields"]])
+                    elif w.get("route") == "API":
+                        do_api(w.get("schema_name", "S"), [tuple(x) for x in w["fields"]])
+                    if w.get("expect") == "wf":
+                        must.append((fn, w, n0, len(records)))
+        # must-pass regressions (witnesses of findings fixed in /repo): every surface of the route returns a grammar, each
+        # grammar is well-formed for the reference parser (independent of the Coq build), and the names are read back
+        for fn, w, a, b in must:
+            got = {r["surface"] for r in records[a:b]}
+            missing = sorted(MUST_SURFACES[w["route"]] - got)
+            if missing:
+                ctx.property_failure({"corpus": fn, "input": w, "surfaces_without_grammar": missing},
+                                     "must-pass regression: no grammar returned by " + ", ".join(missing))
+            for r in records[a:b]:
+                code = RefParser(r["text"], False).parse()[0]
+                ctx.hist("must_pass_regression", CODE_NAME[code])
+                if code != 0:
+                    ctx.property_failure({"corpus": fn, "surface": r["surface"], "input": r["case"], "grammar": r["text"]},
+                                         f"must-pass regression ({w.get('fixed_in', 'fixed finding')}): grammar is not well-formed GBNF: "
+                                         f"{CODE_NAME[code]}")
         # ---- every pool element alone ----
         for nm in CLEAN_NAMES + SAN_NAMES:
             do_fields("S", [(nm, ["REQ"])], False)
@@ -662,8 +741,14 @@ def run(ctx):
             do_contract("T", [("NAME", ["REQ", 'REGEX["' + p + '"]'])])
         for tn in CONTRACT_TYPES:
             do_contract(tn, [("NAME", ["REQ"])])
+            do_contract(tn, [])
         do_fields("S", [], False)
         do_contract("T", [])
+        for nm in API_FIELD_NAMES:
+            do_api("S", [(nm, ["REQ"])])
+        for sn in API_SCHEMA_NAMES:
+            do_api(sn, [("NAME", ["REQ"])])
+            do_api(sn, [])
         # ---- packaged schemas, by name ----
         for nm in ("META", "SKILL", "TEST_HOLOGRAPHIC", "DEBATE_TRANSCRIPT", "NOPE"):
             try:
@@ -684,12 +769,22 @@ def run(ctx):
             for _, ch in fields:
                 for m in ch:
                     ctx.hist("member_kind", m.split("[")[0])
-            if rng.random() < 0.5:
+            route = rng.random()
+            if route < 0.45:
                 do_fields(rng.choice(SCHEMA_NAMES), fields, full=(i % 6 == 0))
-            else:
-                if rng.random() < 0.2:
+            elif route < 0.85:
+                if rng.random() < 0.35:
                     fields.append((rng.choice(CONTRACT_ONLY_NAMES), gen_chain(rng)))
                 do_contract(rng.choice(CONTRACT_TYPES), fields)
+            else:
+                # hand-built SchemaDefinition: names are arbitrary text (quotes, backslashes, blanks, line breaks)
+                for _ in range(rng.choice([1, 1, 2])):
+                    nm = rng.choice(API_FIELD_NAMES) if rng.random() < 0.6 else \
+                        "".join(rng.choice('aZ9 "\\\t-.é') for _ in range(rng.randint(1, 6)))
+                    fields.append((nm, [m for m in gen_chain(rng) if not m.startswith("REGEX")]))
+                sn = rng.choice(API_SCHEMA_NAMES[:-1]) if rng.random() < 0.7 else \
+                    "".join(rng.choice('aZ9 "\\-.é') for _ in range(rng.randint(1, 6)))
+                do_api(sn, fields)
         n_texts = check_texts(ctx, have_model, records)
         ctx.extra["distinct_grammar_texts"] = n_texts
         # finding witnesses: still failing?
